@@ -198,7 +198,7 @@ func TestC16(t *testing.T) {
 		"finalized bytes; an Append that is 1..n bytes too large must panic and leave A unchanged.  Non-trivial = a label is defined on one side of the split and referenced on the other; distinct = hash(case).",
 		func(r *rig.Run) {
 			ev := r.Ev
-			r.Rapid("rapid", rig.Pick(5000, 30000), func(t *rapid.T) {
+			r.Rapid("rapid", rig.Pick(25000, 100000), func(t *rapid.T) {
 				c := c16Case{Listing: rapid.Bool().Draw(t, "listing")}
 				c.Ops = asmcat.GenHistory(t, asmcat.GenOpts{MaxOps: rig.Pick(30, 80), Labels: true, Data: true, Comments: true, SetBase: true, Assume: true, BadGuard: true})
 				switch rapid.IntRange(0, 5).Draw(t, "split-kind") {
